@@ -53,11 +53,27 @@ def wfc_unique_att(facts):
         if n.get("k") != "If" or not any(m.get("k") == "Ret" for m in walk(n["then"])):
             continue
         cond = n["cond"]
-        quant = [m for m in walk(cond) if m.get("k") == "MethodCall" and m["m"] in ("any", "contains", "position", "find", "insert")
-                 and any(x.get("k") == "Field" and x.get("name") in ("attributes", "name") for x in walk(m))]
+        def quantifiers(expr):
+            return [m for m in walk(expr) if m.get("k") == "MethodCall" and m["m"] in ("any", "contains", "position", "find", "insert")
+                    and any(x.get("k") == "Field" and x.get("name") in ("attributes", "name") for x in walk(m))]
+        quant = quantifiers(cond)
+        ctx = f
+        if not quant:
+            # a predicate of this crate that is handed the attribute list: the test is in its body
+            for c in walk(cond):
+                if c.get("k") == "Call" and c["f"].get("k") == "Path" and str(c.get("ty")) == "bool":
+                    g = facts.fns.get(c["f"].get("rid") or c["f"].get("id"))
+                    if g is not None and "body" in g and g["crate"] == "xml_info" and \
+                            any("Attribute" in str(x.get("ty", "")) for a in c.get("args", []) for x in walk(a)):
+                        quant = quantifiers(g["body"])
+                        ctx = g
+                        if quant:
+                            break
         if not quant:
             continue
         q = quant[0]
+        lets = {m["pat"]["lid"]: m["init"] for m in walk(ctx["body"])
+                if m.get("s") == "Let" and m.get("pat", {}).get("p") == "Bind" and "init" in m}
         chain = []
         r = q
         while isinstance(r, dict) and r.get("k") == "MethodCall":
@@ -82,9 +98,11 @@ def wfc_unique_att(facts):
             if len(cmps) != 1:
                 return False, "the duplicate test does not consist of one comparison of names"
             sides = [cmps[0]["a"], cmps[0]["b"]]
-            def whole(x):
+            def whole(x, depth=0):
                 while x.get("k") in ("AddrOf", "Deref", "Unary"):
                     x = x.get("a") or x.get("e")
+                if x.get("k") == "Path" and x.get("res") == "Local" and x.get("lid") in lets and depth < 3:
+                    return whole(lets[x["lid"]], depth + 1)      # `let name = &attributes[index].name;`
                 return x.get("k") == "Field" and x.get("name") == "name" and "AttributeName" in str(x.get("ty", ""))
             if not all(whole(x) for x in sides):
                 return False, "attribute names are compared by a part of the name (%s): attributes with equal local parts and different " \
